@@ -19,7 +19,9 @@ RULE = ("seeded random well-formed histories (10-40 operations: store, metadata 
 ASSUMPTIONS = ["well-formed histories only (model preconditions); failing reads may raise any exception or return None"]
 SHARD_TIMEOUT = {"quick": 900, "thorough": 5400}
 
-UNIVERSE = ["a", "a/b", "a/b/c.txt", "a/b.txt", "a/d.txt", "a/bc", "e.txt", "f/g.json", "f/g", "f", "h.x/y.z", "a/b/c"]
+UNIVERSE = ["a", "a/b", "a/b/c.txt", "a/b.txt", "a/d.txt", "a/bc", "e.txt", "f/g.json", "f/g", "f", "h.x/y.z", "a/b/c",
+            # top-level names that sort between a directory and its content ('.', '-' and ' ' sort before '/')
+            "a.csv", "f-1", "a/b c"]
 
 
 def shards(tier, seed):
